@@ -651,8 +651,16 @@ class CSSStyleDeclaration(CSS2Properties, cssutils.util.Base2):
                 # literal name if not normalize)
                 property = self.getProperty(name, normalize)
                 if property is not None:
-                    property.propertyValue = newp.propertyValue.cssText
+                    # the priority setter refuses before it stores, so set it
+                    # first and take it back if the value is refused: a
+                    # rejected update must not leave half of it behind
+                    oldpriority = property.priority
                     property.priority = newp.priority
+                    try:
+                        property.propertyValue = newp.propertyValue.cssText
+                    except Exception:
+                        property.priority = oldpriority
+                        raise
                     return
 
             # not yet set or forced omit replace
